@@ -329,6 +329,7 @@ class ASTTypeBuilder:
         )
 
     def _build_argument(self, node: _ast.InputValueDefinition) -> Argument:
+        self._check_input_type(node)
         type_ = self.build_type(node.type)
         kwargs = dict(description=_desc(node), node=node)
         if node.default_value is not None:
@@ -338,6 +339,7 @@ class ASTTypeBuilder:
         return Argument(node.name.value, type_, **kwargs)  # type: ignore
 
     def _build_input_field(self, node: _ast.InputValueDefinition) -> InputField:
+        self._check_input_type(node)
         type_ = self.build_type(node.type)
         kwargs = dict(description=_desc(node), node=node)
         if node.default_value is not None:
@@ -345,6 +347,33 @@ class ASTTypeBuilder:
                 node.default_value, lazy(type_)
             )
         return InputField(node.name.value, type_, **kwargs)  # type: ignore
+
+    def _check_input_type(self, node: _ast.InputValueDefinition) -> None:
+        # Arguments and input fields build their type eagerly: an output type
+        # in that position must be reported before building it, which could
+        # re-enter the type under construction (`type A { f(a: A): Int }`).
+        type_node = node.type
+        while isinstance(type_node, (_ast.ListType, _ast.NonNullType)):
+            type_node = type_node.type
+
+        type_name = type_node.name.value
+        known = self._cache.get(type_name) or self._type_defs.get(type_name)
+        if isinstance(
+            known,
+            (
+                ObjectType,
+                InterfaceType,
+                UnionType,
+                _ast.ObjectTypeDefinition,
+                _ast.InterfaceTypeDefinition,
+                _ast.UnionTypeDefinition,
+            ),
+        ):
+            raise SDLError(
+                'Expected input type for "%s" but got "%s"'
+                % (node.name.value, type_name),
+                [node],
+            )
 
     def _extend_object_type(self, object_type: ObjectType) -> ObjectType:
         name = object_type.name
